@@ -240,6 +240,7 @@ class State:
     def __init__(self):
         self.mem = {}          # cell id -> Value
         self.lazy = {}         # (oid, key) -> value materialised lazily (shared by copies of the same object)
+        self.cell_ty = {}      # cell -> type of a lazily materialised pointee
         self.frames = []
         self.pc = []           # list of z3 Bool
         self.events = []       # (kind, name, payload)
@@ -326,6 +327,11 @@ class Executor:
             return Sym(z3.Bool(fresh_name(hint)), "bool")
         if t == "()":
             return UNIT
+        if t.startswith("&") and not t.startswith("&str") and "dyn " not in t:
+            # a reference to an arbitrary value: the pointee is materialised on first use
+            c = st.new_cell(None)
+            st.cell_ty[c] = pointee(t)
+            return Ref(c, (), "mut " in t[:12], t)
         bt = base_type(t).split("::")[-1] if not t.startswith(("(", "[", "{", "&", "*")) else ""
         if bt == "Vec" or (t.startswith("[") and not re.search(r";\s*\d+\]$", t)):
             et = generic_args(t)[0] if bt == "Vec" else t[1:-1].strip()
@@ -476,6 +482,8 @@ class Executor:
 
     def read_path(self, st, cell, proj, ty_hint="?"):
         if cell not in st.mem or st.mem[cell] is None:
+            if ty_hint == "?" and cell in st.cell_ty:
+                ty_hint = st.cell_ty[cell]
             if ty_hint == "?":
                 raise Unsupported("read of uninitialised cell %r" % (cell,))
             st.mem[cell] = self.fresh(ty_hint, st, "c")
@@ -587,7 +595,7 @@ class Executor:
             st.mem[cell] = val
             return
         if cell not in st.mem or st.mem[cell] is None:
-            st.mem[cell] = Obj("?")
+            st.mem[cell] = self.fresh(st.cell_ty[cell], st, "c") if cell in st.cell_ty else Obj("?")
         self._write(st, st.mem[cell], list(proj), val, None)
 
     def _write(self, st, v, proj, val, guard):
@@ -739,6 +747,8 @@ class Executor:
                     tgt = self.read_path(st, a.cell, a.proj)
                     if isinstance(tgt, VecV):
                         return tgt.len
+                    if isinstance(tgt, Obj) and isinstance(tgt.fields.get(("g", "len")), Sym):
+                        return tgt.fields[("g", "len")]     # modelled byte buffer (file range)
                 raise Unsupported("PtrMetadata of %r" % (a,))
             raise Unsupported("unop " + rv.extra)
         if k == "discriminant":
@@ -1040,7 +1050,13 @@ class Executor:
             st.note = "resume"
             return [st]
         if k == "drop":
-            self.on_drop(st, frame, t)
+            body = self.drop_body(frame, t.args[0])
+            if body is not None:
+                # a type of this crate with `impl Drop`: run the destructor (guards that restore state on every exit path)
+                cell, proj = self.resolve(st, frame, t.args[0])
+                st.events.append(("drop", self.canon(body), None, None))
+                self.push_frame(st, body, [Ref(cell, proj, True, "&mut ?")], None, t.targets["return"])
+                return None
             frame.block = t.targets["return"]
             return None
         if k == "assert":
@@ -1118,8 +1134,15 @@ class Executor:
             return self.exec_call(st, frame, t)
         raise Unsupported("terminator " + k)
 
-    def on_drop(self, st, frame, t):
-        pass
+    def drop_body(self, frame, place):
+        table = getattr(self, "drop_impls", None)
+        if not table:
+            return None
+        ty = self.place_ty(frame, place)
+        if ty in (None, "?"):
+            return None
+        bt = base_type(ty).split("::")[-1]
+        return table.get(bt)
 
     def canon(self, body):
         io = getattr(body, "impl_of", None)
